@@ -13,8 +13,9 @@
    transfers), packets 2..n of X (repeated at will), sub-packages of X with an impossible number
    (0 or > n), ends of reads; all within 60 s of packet 1 (C14 covers what happens later). *)
 From JT.Base Require Import Prelude.
-From JT.Model Require Import Frame Unpack Subpkg.
-From JT.Proofs Require Import Unpack_proofs Subpkg_proofs Subpkg_final Subpkg_seg.
+From JT.Model Require Import Frame Unpack Subpkg SubpkgHandlers.
+From JT.Model Require Reply.
+From JT.Proofs Require Import Unpack_proofs Subpkg_proofs Subpkg_final Subpkg_seg Subpkg_handlers.
 
 (* exactly one complete message for X, its body the concatenation of the bodies in package-number
    order, delivered by the very event that brings the last missing number (position length l1 in
@@ -109,6 +110,31 @@ Theorem C05_parse_is_run : forall now ms s, delete_timeout now s = s ->
 Proof. exact cp_loop_is_run. Qed.
 Print Assumptions C05_parse_is_run.
 
+(* end to end, default configuration (sub-packages filtered from handlers until complete): the
+   messages of a connection ms = packet 1 of the transfer followed by anything C05_exact allows,
+   processed by the loop of parse (from a state on which the expiry pass has acted) and handed to
+   the reader loop of Model/Reply.v (C06: lookup of the handler, onReadExecutionEvent with the
+   hasComplete filter, channel sends; ANY schedule of reader and writer moves that lets the reader
+   finish): TerminalEventer.OnReadExecutionEvent is called for sub-packaged messages of id X exactly
+   once, with the concatenation of the packet bodies.  (X has a default handler and is not 0x8003;
+   for an id without handler every packet goes to OnNotSupportedEvent: Reply.read_report.)
+   Composition of C05_exact, C05_parse_is_run and C06_callbacks_read. *)
+Theorem C05_handlers_see_exactly_one : forall X bodies s0 now raw1 p1 rest l1 t m l2 sched,
+  bodies <> [] -> Forall nonempty bodies -> wf s0 -> delete_timeout now s0 = s0 ->
+  Reply.std_registered X = true -> X <> Reply.REISSUE ->
+  good_pkt X (len bodies) bodies p1 -> m_no p1 = 1 ->
+  let ms := (raw1, p1) :: rest in
+  let evs := map (fun rm => (now, EvMsg (snd rm))) ms in
+  Forall (fun te => ev_ok X (len bodies) bodies (snd te)) (tl evs) ->
+  evs = l1 ++ (t, EvMsg m) :: l2 ->
+  ~ covers (len bodies) (numbers X (len bodies) l1) ->
+  covers (len bodies) (numbers X (len bodies) (l1 ++ [(t, EvMsg m)])) ->
+  let ds := map dmsg_of (snd (cp_loop now s0 ms)) in
+  Reply.reader_done (Reply.final (Reply.init ds) sched) = true ->
+  handler_bodies X (Reply.reader_obs (Reply.trace (Reply.init ds) sched)) = [concat bodies].
+Proof. exact handlers_see_exactly_one. Qed.
+Print Assumptions C05_handlers_see_exactly_one.
+
 (* non-vacuity: id 0x0801, three packets, arrival 1,3,(heartbeat),(end of read),3,(number 0),
    (number 4),(packet 2 of another id),2,3 - delivered once, at the packet numbered 2 *)
 Definition ex_pkt (id sum no serial : N) (body : list N) : msg :=
@@ -140,3 +166,27 @@ Qed.
 Example C05_example_run :
   completions 2049 (snd (run [] ((0, EvMsg (ex_pkt 2049 3 1 11 [1; 2])) :: ex_rest))) = [(9%nat, [1; 2; 126; 3; 4; 5])].
 Proof. vm_compute. reflexivity. Qed.
+
+(* two transfers (ids 0x0801 and 0x0200) interleaved: both complete, each once *)
+Example C05_example_two_transfers :
+  let evs := [(0, EvMsg (ex_pkt 2049 2 1 1 [1])); (0, EvMsg (ex_pkt 512 2 1 2 [7])); (0, EvEnd);
+              (5, EvMsg (ex_pkt 512 2 2 3 [8])); (5, EvMsg (ex_pkt 2049 2 2 4 [2])); (5, EvEnd)] in
+  completions 2049 (snd (run [] evs)) = [(4%nat, [1; 2])] /\ completions 512 (snd (run [] evs)) = [(3%nat, [7; 8])].
+Proof. vm_compute. split; reflexivity. Qed.
+
+(* C05_segmentation on a concrete stream: two packets of a transfer as frames (Frame.encode cannot
+   produce a fragmented frame, so they are written out), cut in the middle of the first frame and
+   two bytes into the second: the hypotheses hold and the reassembled message comes out *)
+Definition ex_frame (no : N) (body : list N) : list N :=
+  let q := [8; 1; 32; len body; 1; 35; 69; 103; 137; 1; 0; no; 0; 2; 0; no] ++ body in escape (q ++ [xor_all q]).
+Definition ex_fs : list (list N) := [ex_frame 1 [65; 126]; ex_frame 2 [125; 66]].
+Definition ex_chunks : list (list N) :=
+  [firstn 9 (concat ex_fs); firstn 14 (skipn 9 (concat ex_fs)); skipn 23 (concat ex_fs)].
+Example C05_example_segmentation :
+  Forall vframe ex_fs /\ concat ex_chunks = concat ex_fs /\
+  completed_msgs (fst (feed_all 0 pst0 ex_chunks)) = [(2049, [65; 126; 125; 66])] /\
+  map (fun p => p_complete p) (fst (feed_all 0 pst0 ex_chunks)) = [false; false; true].
+Proof.
+  split. { repeat constructor; apply vframeb_spec; vm_compute; reflexivity. }
+  vm_compute. repeat split; reflexivity.
+Qed.
